@@ -46,6 +46,12 @@ type c10Op struct {
 	Dec       bool    `json:"dec,omitempty"`
 	Same      bool    `json:"same,omitempty"`
 	SM2Op     string  `json:"sm2op,omitempty"` // Verify | ZA | DerivePublic | Sign
+	Cold      bool    `json:"cold,omitempty"`  // Seal/Open/Block: the call is made on an OS thread that never ran library code (seam S7)
+}
+
+// catchOn is core.Catch around a call made on the current or on a cold thread.
+func catchOn(cold bool, f func()) (bool, string, uintptr, bool) {
+	return core.Catch(func() { core.On(cold, f) })
 }
 
 type c10Script struct {
@@ -101,7 +107,7 @@ func (c10) Meta() core.Meta {
 			"oracle": "the library's own dst=nil twin on private copies, executed before the perturbed call"},
 		Assumptions: []string{"inexact overlap of dst and input is outside the AEAD contract and never generated", "bytes of dst[len:cap] beyond the result are not judged", "pointer identity of the result is not required",
 			"for the in-place idiom the overlapped input is exempt from the unchanged-input invariant", "on Open failure only the error and the inputs are judged here (no-plaintext is C07)"},
-		FaultKinds: []string{"dst=nil", "dst=len0/cap=len", "dst=len>0/cap=len", "dst=*/spare<needed", "dst=*/spare==needed", "dst=*/spare>needed", "dst=inplace/cap>=needed", "dst=inplace/cap<needed", "repeat", "open-corrupted", "open-wrong-aad", "block-inplace"},
+		FaultKinds: []string{"dst=nil", "dst=len0/cap=len", "dst=len>0/cap=len", "dst=*/spare<needed", "dst=*/spare==needed", "dst=*/spare>needed", "dst=inplace/cap>=needed", "dst=inplace/cap<needed", "repeat", "open-corrupted", "open-wrong-aad", "block-inplace", "thread:cold-call"},
 		ProbeNames: []string{"reused-spare-capacity", "reallocated", "open-twice", "empty-plaintext", "tail-1..15", "pool-buffer-shared>=2"},
 		StepUnit:   "library calls",
 	}
@@ -167,6 +173,7 @@ func (c10) Generate(idx int, r *core.Rand, tier string) core.Script {
 		nops = w.Range(60, 250)
 	}
 	var seals []int
+	th := r.Split("thread")
 	for i := 0; i < nops; i++ {
 		op := c10Op{A: w.Intn(len(s.AEADs)), M: w.Intn(len(s.Msgs)), D: w.Intn(len(s.AADs))}
 		tag := s.AEADs[op.A].TagSize
@@ -208,6 +215,9 @@ func (c10) Generate(idx int, r *core.Rand, tier string) core.Script {
 			op.Dst = genDst(w, s.Msgs[op.M].Len+tag, true)
 			op.Repeat = w.Chance(1, 5)
 			seals = append(seals, i)
+		}
+		if op.Kind == "Seal" || op.Kind == "Open" || op.Kind == "Block" {
+			op.Cold = th.Chance(1, 10)
 		}
 		s.Ops = append(s.Ops, op)
 	}
@@ -305,6 +315,12 @@ func (c10) Execute(sc core.Script, keep bool) *core.Result {
 	if asm {
 		pathName = "asm"
 	}
+	gcmCanon()
+	for _, op := range s.Ops {
+		if op.Cold {
+			res.Faults["thread:cold-call"]++
+		}
+	}
 	pl := newPool()
 	var aeads []cipher.AEAD
 	var blocks []cipher.Block
@@ -377,7 +393,7 @@ func (c10) Execute(sc core.Script, keep bool) *core.Result {
 			do := func(tagName string) []byte {
 				var out, prefix, dst, scratch []byte
 				exempt := ""
-				p, txt, _, _ := core.Catch(func() {
+				p, txt, _, _ := catchOn(op.Cold, func() {
 					if strings.HasPrefix(op.Dst.Mode, "inplace") {
 						var d0, in0 []byte
 						scratch, d0, in0 = inplaceBuf(op.Dst, pt)
@@ -475,7 +491,7 @@ func (c10) Execute(sc core.Script, keep bool) *core.Result {
 				var out, prefix, dst, scratch []byte
 				var err error
 				exempt := ""
-				p, txt, _, _ := core.Catch(func() {
+				p, txt, _, _ := catchOn(op.Cold, func() {
 					if op.OnPool && op.Corrupt > 0 {
 						// in place in the pooled buffer itself (a rejected message leaves it unchanged,
 						// which the pool snapshot checks now and after every later operation)
@@ -590,7 +606,7 @@ func (c10) Execute(sc core.Script, keep bool) *core.Result {
 				res.Faults["block-inplace"]++
 			}
 			kinds = append(kinds, opn+":"+param)
-			p, txt, _, _ := core.Catch(func() {
+			p, txt, _, _ := catchOn(op.Cold, func() {
 				twin := slackBuf(16, 16)
 				f(twin, cloneSlack(src))
 				if op.Same {
